@@ -11,6 +11,7 @@ From QSX Require Import Fac.FTUpdate.
 From QSX Require Import Store.Matrix Store.L2.
 From QSX Require Import IO.LpWrite IO.LpRead IO.MpsWrite IO.LpRoundtrip IO.LpNames.
 From QSX Require Import IO.MpsRead.
+From QSX Require Import IO.MpsWf.
 (* one Require line per area may be added below *)
 
 Extraction Language OCaml.
@@ -34,5 +35,6 @@ Extraction "model.ml"
   l2_step_c l2_load_c l2_copy_c empty_lstore lwf_check wf_check abs col_ents
   write_lp file_bytes read_lp_res split_lines to_nlp write_mps wf_lpb fix_names default_objname
   read_mps_res mlp_to_nlp
+  wf_mpsb wf_coreb setnames_okb
   (* add names below, one line per area *)
   .
